@@ -33,13 +33,12 @@ Proof. exact GenNamesProofs.derived_ident_prefix. Qed.
 Theorem no_field_method_clash : forall g, ~ In (rewrite_field g) reserved.
 Proof. exact GenNamesProofs.no_field_method_clash_In. Qed.
 
-(* ... but oneofs are struct members too and are not renamed (finding D8, keys gen/adv_oneof_named_xxx) ... *)
-Theorem oneof_method_clash_refuted :
-  ~ (forall fields oneofs, forall m, In m (struct_members fields oneofs) -> ~ In m reserved).
-Proof. exact GenNamesProofs.oneof_method_clash_refuted. Qed.
+(* ... nor does a (real) oneof, which is a struct member too and is renamed the same way (finding D8, fixed in /repo) ... *)
+Theorem no_member_method_clash : forall fields oneofs m, In m (struct_members fields oneofs) -> ~ In m reserved.
+Proof. exact GenNamesProofs.no_member_method_clash. Qed.
 
-(* ... and renaming after protogen made members and getters unique can re-introduce a clash: Has -> Has_ whose getter
-   GetHas_ meets the member GetHas_ of field get_has_ (finding D15, key gen/adv_rewrite_makes_getter_clash) *)
+(* ... but renaming AFTER protogen made members and getters unique can re-introduce a clash: Has -> Has_ whose getter
+   GetHas_ meets the member GetHas_ of field get_has_ (finding D15, keys gen/adv_rewrite_makes_...) *)
 Theorem rewrite_breaks_getter_uniqueness_refuted :
   ~ (forall fields, getter_unique fields = true -> getter_unique (map rewrite_field fields) = true).
 Proof. exact GenNamesProofs.rewrite_breaks_getter_uniqueness_refuted. Qed.
